@@ -12,6 +12,7 @@
 package main
 
 import (
+	_ "embed"
 	"fmt"
 	"go/ast"
 	"go/parser"
@@ -23,10 +24,13 @@ import (
 	"strings"
 )
 
+//go:embed externs.lean
+var externsLean string
+
 // ---------------------------------------------------------------- types
 
 type Ty struct {
-	K     string // int float bool string slice struct error unit tuple
+	K     string // int float bool string slice struct error unit tuple opt (nil-able pointer field) ghost
 	Elem  *Ty
 	Name  string // struct name (Lean: G<Name>)
 	Elems []*Ty
@@ -61,6 +65,8 @@ func (t *Ty) lean() string {
 		return "(List " + t.Elem.lean() + ")"
 	case "struct":
 		return "(G" + t.Name + " α)"
+	case "opt":
+		return "(Option " + t.Elem.lean() + ")"
 	case "tuple":
 		var p []string
 		for _, e := range t.Elems {
@@ -89,6 +95,8 @@ func (t *Ty) zero() string {
 		return "([] : " + t.lean() + ")"
 	case "struct":
 		return "(G" + t.Name + ".zero : G" + t.Name + " α)"
+	case "opt":
+		return "(none : " + t.lean() + ")"
 	case "tuple":
 		var p []string
 		for _, e := range t.Elems {
@@ -127,6 +135,14 @@ func (s *Struct) field(n string) *Ty {
 	return nil
 }
 
+// fieldTypeFromAst: a pointer in struct-field position may be nil (Option); elsewhere *T is T.
+func fieldTypeFromAst(e ast.Expr) *Ty {
+	if st, ok := e.(*ast.StarExpr); ok {
+		return &Ty{K: "opt", Elem: typeFromAst(st.X)}
+	}
+	return typeFromAst(e)
+}
+
 // typeFromAst resolves a Go type expression to a Ty (value semantics: *T is T).
 func typeFromAst(e ast.Expr) *Ty {
 	switch x := e.(type) {
@@ -149,10 +165,23 @@ func typeFromAst(e ast.Expr) *Ty {
 		if _, ok := structs[x.Name]; ok {
 			return &Ty{K: "struct", Name: x.Name}
 		}
+		if x.Name == "ComputeOpt" {
+			return &Ty{K: "ghost"}
+		}
 		panic(unsupported("type " + x.Name))
 	case *ast.StarExpr:
 		return typeFromAst(x.X)
+	case *ast.Ellipsis:
+		return &Ty{K: "slice", Elem: typeFromAst(x.Elt)}
+	case *ast.FuncType:
+		return &Ty{K: "ghost"}
 	case *ast.SelectorExpr: // pkg.Type
+		if id, ok := x.X.(*ast.Ident); ok {
+			switch id.Name + "." + x.Sel.Name {
+			case "context.Context", "zerolog.Logger", "time.Time", "time.Duration":
+				return &Ty{K: "ghost"} // not modelled: cancellation, logging, wall-clock time
+			}
+		}
 		return typeFromAst(x.Sel)
 	case *ast.ArrayType:
 		if x.Len != nil {
@@ -193,16 +222,43 @@ var targets = []Target{
 	{"pkg/basic", "", "CanonicalizeTrustVector"},
 	{"pkg/basic", "", "ExtractDistrust"},
 	{"pkg/basic", "", "DiscountTrustVector"},
+	{"pkg/sparse", "CSMatrix", "Transpose"},
+	{"pkg/sparse", "CSRMatrix", "RowVector"},
+	{"pkg/sparse", "CSRMatrix", "SetRowVector"},
+	{"pkg/sparse", "", "NewCSRMatrix"},
+	{"pkg/basic", "", "CanonicalizeLocalTrust"},
+	{"pkg/basic", "", "WithInitialTrust"},
+	{"pkg/basic", "", "WithResultIn"},
+	{"pkg/basic", "", "WithFlatTail"},
+	{"pkg/basic", "", "WithFlatTailNumLeaders"},
+	{"pkg/basic", "", "WithFlatTailStats"},
+	{"pkg/basic", "", "WithMaxIterations"},
+	{"pkg/basic", "", "WithMinIterations"},
+	{"pkg/basic", "", "WithIterations"},
+	{"pkg/basic", "", "WithCheckFreq"},
+	{"pkg/basic", "", "NewFlatTailChecker"},
+	{"pkg/basic", "FlatTailChecker", "Update"},
+	{"pkg/basic", "FlatTailChecker", "Reached"},
+	{"pkg/basic", "FlatTailChecker", "Stats"},
+	{"pkg/basic", "", "Compute"},
 }
 
 // struct declarations that the targets need (parsed from the source, fields filtered to the
 // supported types; unsupported fields such as *zerolog.Logger are dropped and any use of them
 // makes the using function unsupported).
+// Compute(…, opts ...ComputeOpt) starts by folding the options into `o := ComputeOpts{}`; the translated
+// function takes that record as its parameter instead (the With* constructors are translated separately).
+var optsParams = map[string][3]string{"Compute": {"opts", "o", "ComputeOpts"}}
+
 var structTargets = []struct{ Dir, Name string }{
 	{"pkg/sparse", "Entry"},
+	{"pkg/sparse", "CooEntry"},
 	{"pkg/sparse", "KBNSummer"},
 	{"pkg/sparse", "Vector"},
 	{"pkg/sparse", "CSMatrix"},
+	{"pkg/api/openapi", "FlatTailStats"},
+	{"pkg/basic", "ComputeOpts"},
+	{"pkg/basic", "FlatTailChecker"},
 }
 
 type Var struct {
@@ -225,6 +281,7 @@ type Fn struct {
 	UsesFuel bool
 	Vars     []*Var // all state fields, in declaration order
 	Body     string
+	ResAlias [][2]string // result field F shares its backing array with this path over the receiver / parameters
 	Named    []*Var      // named results
 	Aliases  [][3]string // alias flag name, Go name a, Go name b
 	Written  map[*Var]bool
@@ -263,6 +320,49 @@ type comp struct {
 	closures map[string]*ast.FuncLit
 	pendingLabel string
 	aux      []string // auxiliary definitions (loop parts), emitted before the body
+	ghosts   map[string]bool // variables that only carry unmodelled things (context, logger, time)
+	views    []view          // write-through aliases: a local path that shares its backing array with another path
+}
+
+// view: `key` (an lvalue path of the function, e.g. `inRow.Entries` or the range variable `row`) shares its
+// backing array with `origin` (e.g. `localTrust.Entries[viewIdx]`): every write to or through `key` is
+// followed by a store of `key`'s new value into `origin` (value semantics made faithful for this pattern).
+type view struct {
+	key, origin string
+	depth       int
+}
+
+func parseExpr(t string) ast.Expr {
+	x, err := parser.ParseExpr(t)
+	if err != nil {
+		panic(unsupported("internal: cannot re-parse " + t))
+	}
+	return x
+}
+
+// isGhost: the expression only involves unmodelled things — the context, a zerolog logger chain,
+// wall-clock time.  Statements made only of such expressions are skipped.
+func (c *comp) isGhost(x ast.Expr) bool {
+	switch y := x.(type) {
+	case *ast.Ident:
+		return c.ghosts[y.Name] && c.lookup(y.Name) == nil
+	case *ast.ParenExpr:
+		return c.isGhost(y.X)
+	case *ast.SelectorExpr:
+		if y.Sel.Name == "logger" {
+			return true
+		}
+		return c.isGhost(y.X)
+	case *ast.CallExpr:
+		t := exprText(y.Fun)
+		if t == "zerolog.Ctx" || t == "time.Now" || t == "runtime.GC" || t == "runtime.SetFinalizer" {
+			return true
+		}
+		if sel, ok := y.Fun.(*ast.SelectorExpr); ok {
+			return c.isGhost(sel.X) // method chain on a ghost value (logger.Trace().Int(…).Msg(…), tm1.Sub(tm0))
+		}
+	}
+	return false
 }
 
 // aliasFlag returns the state field telling whether the two pointer parameters are the same object.
@@ -300,7 +400,16 @@ func (c *comp) aliasFlag(a, b string) string {
 }
 
 func (c *comp) push() { c.scopes = append(c.scopes, scope{}) }
-func (c *comp) pop()  { c.scopes = c.scopes[:len(c.scopes)-1] }
+func (c *comp) pop() {
+	c.scopes = c.scopes[:len(c.scopes)-1]
+	var keep []view
+	for _, v := range c.views {
+		if v.depth <= len(c.scopes) {
+			keep = append(keep, v)
+		}
+	}
+	c.views = keep
+}
 
 func (c *comp) lookup(name string) *Var {
 	for i := len(c.scopes) - 1; i >= 0; i-- {
@@ -398,8 +507,34 @@ func constLit(v string, want *Ty) string {
 	return "(" + v + " : Int)"
 }
 
-// expr compiles e; `want` is the type an untyped constant should take (may be nil).
+// expr compiles e; `want` is the type an untyped constant should take (may be nil); a plain value is
+// wrapped (`some`) where a nil-able pointer is wanted, and a nil-able pointer is dereferenced (panicking
+// on nil) where a plain value is wanted.
 func (e *ectx) expr(x ast.Expr, want *Ty) (string, *Ty) {
+	s, t := e.expr0(x, want)
+	if want != nil && want.K == "opt" && t.K != "opt" && t.K != "const" {
+		return "(some " + s + ")", want
+	}
+	if want != nil && want.K != "opt" && t.K == "opt" {
+		return e.deref(s, t)
+	}
+	return s, t
+}
+
+func (e *ectx) deref(s string, t *Ty) (string, *Ty) {
+	return e.bind("goDeref " + s), t.Elem
+}
+
+// base compiles the operand of a selector / method call: nil-able pointers are dereferenced.
+func (e *ectx) base(x ast.Expr) (string, *Ty) {
+	s, t := e.expr0(x, nil)
+	if t.K == "opt" {
+		return e.deref(s, t)
+	}
+	return s, t
+}
+
+func (e *ectx) expr0(x ast.Expr, want *Ty) (string, *Ty) {
 	switch x := x.(type) {
 	case *ast.ParenExpr:
 		return e.expr(x.X, want)
@@ -425,7 +560,7 @@ func (e *ectx) expr(x ast.Expr, want *Ty) (string, *Ty) {
 			if want != nil && want.K == "error" {
 				return "(none : Option GoError)", tErr
 			}
-			if want != nil && want.K == "slice" {
+			if want != nil && (want.K == "slice" || want.K == "opt") {
 				return want.zero(), want
 			}
 			if want != nil && want.K == "struct" {
@@ -450,9 +585,12 @@ func (e *ectx) expr(x ast.Expr, want *Ty) (string, *Ty) {
 			if isErrIdent(x.Sel.Name) {
 				return fmt.Sprintf("(some ⟨%q⟩ : Option GoError)", x.Sel.Name), tErr
 			}
+			if id.Name == "math" && x.Sel.Name == "MaxInt" {
+				return "(9223372036854775807 : Int)", tInt
+			}
 			panic(unsupported("qualified identifier " + id.Name + "." + x.Sel.Name))
 		}
-		s, t := e.expr(x.X, nil)
+		s, t := e.base(x.X)
 		if t.K != "struct" {
 			panic(unsupported("selector on non-struct"))
 		}
@@ -462,11 +600,14 @@ func (e *ectx) expr(x ast.Expr, want *Ty) (string, *Ty) {
 		}
 		return "(" + s + ")." + x.Sel.Name, ft
 	case *ast.StarExpr:
-		return e.expr(x.X, want)
+		return e.base(x.X)
 	case *ast.UnaryExpr:
 		switch x.Op {
 		case token.AND:
-			return e.expr(x.X, want)
+			if want != nil && want.K == "opt" {
+				return e.expr0(x.X, want.Elem)
+			}
+			return e.expr0(x.X, want)
 		case token.NOT:
 			s, _ := e.expr(x.X, tBool)
 			return "(!" + s + ")", tBool
@@ -506,6 +647,11 @@ func (e *ectx) expr(x ast.Expr, want *Ty) (string, *Ty) {
 		if t.K != "struct" {
 			panic(unsupported("composite literal of " + t.K))
 		}
+		if id, ok := x.Type.(*ast.Ident); ok && typeAlias[id.Name] != "" && len(x.Elts) == 1 {
+			if inner, ok := x.Elts[0].(*ast.CompositeLit); ok {
+				return e.expr0(inner, want) // CSRMatrix{CSMatrix{…}}: the embedded struct is the whole value
+			}
+		}
 		st := structs[t.Name]
 		vals := map[string]string{}
 		for _, el := range x.Elts {
@@ -515,6 +661,9 @@ func (e *ectx) expr(x ast.Expr, want *Ty) (string, *Ty) {
 			}
 			k := kv.Key.(*ast.Ident).Name
 			ft := st.field(k)
+			if ft == nil && e.c.isGhost(kv.Value) {
+				continue // an unmodelled field (logger) given an unmodelled value
+			}
 			if ft == nil {
 				panic(unsupported("field " + k))
 			}
@@ -558,12 +707,15 @@ func (e *ectx) binary(x *ast.BinaryExpr, want *Ty) (string, *Ty) {
 	// operand types: compile the side that is not an untyped constant first
 	var a, b string
 	var ta, tb *Ty
+	if want != nil && want.K != "int" && want.K != "float" {
+		want = nil // only numeric context flows into the operands (untyped constants)
+	}
 	if isConstExpr(x.X) && !isConstExpr(x.Y) {
-		b, tb = e.expr(x.Y, want)
-		a, ta = e.expr(x.X, tb)
+		b, tb = e.expr0(x.Y, want)
+		a, ta = e.expr0(x.X, tb)
 	} else {
-		a, ta = e.expr(x.X, want)
-		b, tb = e.expr(x.Y, ta)
+		a, ta = e.expr0(x.X, want)
+		b, tb = e.expr0(x.Y, ta)
 	}
 	t := ta
 	if t.K == "const" {
@@ -602,7 +754,10 @@ func (e *ectx) binary(x *ast.BinaryExpr, want *Ty) (string, *Ty) {
 			ia, oka := x.X.(*ast.Ident)
 			ib, okb := x.Y.(*ast.Ident)
 			if !oka || !okb {
-				panic(unsupported("pointer comparison"))
+				panic(unsupported("pointer comparison " + exprText(x)))
+			}
+			if ib.Name == "nil" {
+				panic(unsupported("nil test of a non-nilable pointer " + exprText(x)))
 			}
 			s = "st." + e.c.aliasFlag(ia.Name, ib.Name)
 		case "float":
@@ -617,6 +772,11 @@ func (e *ectx) binary(x *ast.BinaryExpr, want *Ty) (string, *Ty) {
 			} else {
 				s = fmt.Sprintf("(decide (%s = %s))", a, b)
 			}
+		case "opt":
+			if !strings.HasPrefix(b, "(none :") {
+				panic(unsupported("pointer comparison"))
+			}
+			s = fmt.Sprintf("(%s).isNone", a)
 		default:
 			panic(unsupported("equality on " + t.K))
 		}
@@ -717,6 +877,9 @@ func (e *ectx) call(x *ast.CallExpr, want *Ty) (string, *Ty) {
 			return a, tInt
 		case "NewCSRMatrix":
 			return e.newCSR(x)
+		case "SortEntriesByValue":
+			a, ta := e.expr(x.Args[0], nil)
+			return "(goSortEntriesByValue " + a + ")", ta
 		case "max", "min":
 			a, ta := e.expr(x.Args[0], want)
 			b, _ := e.expr(x.Args[1], ta)
@@ -737,6 +900,23 @@ func (e *ectx) call(x *ast.CallExpr, want *Ty) (string, *Ty) {
 			case "math.Abs":
 				s, _ := e.expr(x.Args[0], tFloat)
 				return "(Scalar.abs " + s + ")", tFloat
+			case "errors.New", "fmt.Errorf":
+				// a fresh error value: identified by its (format) string; the arguments are not modelled
+				lit, ok := x.Args[0].(*ast.BasicLit)
+				if !ok {
+					panic(unsupported(q + " without a literal"))
+				}
+				return fmt.Sprintf("(some ⟨%s⟩ : Option GoError)", lit.Value), tErr
+			case "reflect.DeepEqual":
+				a, ta := e.expr(x.Args[0], nil)
+				b, _ := e.expr(x.Args[1], ta)
+				if ta.K != "slice" || ta.Elem.K != "int" {
+					panic(unsupported("reflect.DeepEqual on " + ta.K))
+				}
+				return e.bind(fmt.Sprintf("goDeepEqualInts %s %s", a, b)), tBool
+			case "sparse.SortEntriesByValue":
+				a, ta := e.expr(x.Args[0], nil)
+				return "(goSortEntriesByValue " + a + ")", ta
 			case "errors.Is":
 				a, ta := e.expr(x.Args[0], tErr)
 				b, _ := e.expr(x.Args[1], tErr)
@@ -757,7 +937,10 @@ func (e *ectx) call(x *ast.CallExpr, want *Ty) (string, *Ty) {
 			panic(unsupported("call of " + q))
 		}
 		// method call
-		_, rt := e.sub().expr(sel.X, nil)
+		_, rt := e.sub().expr0(sel.X, nil)
+		if rt.K == "opt" {
+			rt = rt.Elem
+		}
 		if rt.K == "struct" {
 			if f, ok := fns[fnKey(rt.Name, sel.Sel.Name)]; ok {
 				return e.callFn(f, sel.X, x.Args)
@@ -795,6 +978,9 @@ func (e *ectx) newCSR(x *ast.CallExpr) (string, *Ty) {
 		panic(unsupported("NewCSRMatrix arguments"))
 	}
 	if id, ok := x.Args[2].(*ast.Ident); !ok || id.Name != "nil" {
+		if f, ok := fns["NewCSRMatrix"]; ok {
+			return e.callFn(f, nil, x.Args)
+		}
 		panic(unsupported("NewCSRMatrix with entries"))
 	}
 	r, _ := e.expr(x.Args[0], tInt)
@@ -825,12 +1011,19 @@ func (e *ectx) callFn(f *Fn, recv ast.Expr, args []ast.Expr) (string, *Ty) {
 	}
 	var backs []back
 	if f.Recv != nil {
-		s, _ := e.expr(recv, nil)
+		s, _ := e.expr(recv, f.Recv.Ty)
 		parts = append(parts, s)
 		if f.Mutates[f.Recv.Lean] {
 			backs = append(backs, back{recv, f.Recv.Lean})
 		}
 	}
+	var real []ast.Expr
+	for _, a := range args {
+		if !e.c.isGhost(a) {
+			real = append(real, a)
+		}
+	}
+	args = real
 	if len(args) != len(f.Params) {
 		panic(unsupported("argument count"))
 	}
@@ -859,9 +1052,25 @@ func (e *ectx) callFn(f *Fn, recv ast.Expr, args []ast.Expr) (string, *Ty) {
 	parts = append(parts, aliasArgs...)
 	r := e.bind(strings.Join(parts, " "))
 	for _, b := range backs {
-		e.assignTo(b.lv, fmt.Sprintf("%s.1.%s", r, b.lean))
+		v := fmt.Sprintf("%s.1.%s", r, b.lean)
+		if e.lvType(b.lv).K == "opt" {
+			v = "(some " + v + ")"
+		}
+		e.assignTop(b.lv, v)
 	}
 	return r + ".2", f.Result
+}
+
+// assignTop: an assignment as the source makes it, followed by the write-through of every view it touches.
+func (e *ectx) assignTop(lv ast.Expr, rhs string) {
+	e.assignTo(lv, rhs)
+	t := exprText(lv)
+	for _, v := range e.c.views {
+		if t == v.key || strings.HasPrefix(t, v.key+"[") || strings.HasPrefix(t, v.key+".") {
+			cur, _ := e.expr0(parseExpr(v.key), nil)
+			e.assignTo(parseExpr(v.origin), cur)
+		}
+	}
 }
 
 // assignTo emits `let st := { st with root := … }` for the lvalue lv := rhs.
@@ -896,21 +1105,36 @@ func (e *ectx) assignTo(lv ast.Expr, rhs string) {
 		}
 		e.lines = append(e.lines, fmt.Sprintf("let st := { st with %s := %s }", v.Lean, rhs))
 	case *ast.SelectorExpr:
-		cur, t := e.expr(x.X, nil)
+		cur, t := e.expr0(x.X, nil)
+		wrap := false
+		if t.K == "opt" {
+			cur, t = e.deref(cur, t)
+			wrap = true
+		}
 		if t.K != "struct" {
 			panic(unsupported("field assignment on " + t.K))
 		}
 		if structs[t.Name].field(x.Sel.Name) == nil {
 			panic(unsupported("field " + x.Sel.Name))
 		}
-		e.assignTo(x.X, fmt.Sprintf("{ %s with %s := %s }", cur, x.Sel.Name, rhs))
+		nv := fmt.Sprintf("{ %s with %s := %s }", cur, x.Sel.Name, rhs)
+		if wrap {
+			nv = "(some " + nv + ")"
+		}
+		e.assignTo(x.X, nv)
 	case *ast.IndexExpr:
 		cur, t := e.expr(x.X, nil)
 		if t.K != "slice" {
 			panic(unsupported("index assignment on " + t.K))
 		}
 		if id, ok := x.X.(*ast.Ident); ok {
-			if v := e.c.lookup(id.Name); v != nil && v.Origin != "" {
+			covered := false
+			for _, vw := range e.c.views {
+				if vw.key == id.Name {
+					covered = true // a view: written through to its origin by assignTop
+				}
+			}
+			if v := e.c.lookup(id.Name); v != nil && v.Origin != "" && !covered {
 				e.c.fn.Written[v] = true // element write through a slice that shares a backing array
 			}
 		}
@@ -954,7 +1178,7 @@ func exprText(x ast.Expr) string {
 }
 
 func (e *ectx) lvType(lv ast.Expr) *Ty {
-	_, t := e.sub().expr(lv, nil)
+	_, t := e.sub().expr0(lv, nil)
 	return t
 }
 
@@ -1084,10 +1308,32 @@ func (c *comp) stmt(s ast.Stmt, depth string) string {
 			}
 		}
 		return c.setStmt(e, d)
+	case *ast.SelectStmt:
+		// `select { case <-ctx.Done(): return …; default: }`: a cancellation poll (not modelled)
+		for _, cl := range s.Body.List {
+			cc := cl.(*ast.CommClause)
+			if cc.Comm == nil {
+				if len(cc.Body) != 0 {
+					panic(unsupported("select default with a body"))
+				}
+				continue
+			}
+			es, ok := cc.Comm.(*ast.ExprStmt)
+			if !ok || !strings.HasPrefix(exprText(es.X), "<-") || !c.isGhost(es.X.(*ast.UnaryExpr).X) {
+				panic(unsupported("select"))
+			}
+		}
+		return "Stm.skip"
 	case *ast.ExprStmt:
+		if c.isGhost(s.X) {
+			return "Stm.skip"
+		}
 		call, ok := s.X.(*ast.CallExpr)
 		if !ok {
 			panic(unsupported("expression statement"))
+		}
+		if id, ok := call.Fun.(*ast.Ident); ok && c.ghosts[id.Name] {
+			return "Stm.skip"
 		}
 		if id, ok := call.Fun.(*ast.Ident); ok {
 			if fl, ok := c.closures[id.Name]; ok {
@@ -1096,6 +1342,25 @@ func (c *comp) stmt(s ast.Stmt, depth string) string {
 		}
 		if t := exprText(call.Fun); t == "runtime.SetFinalizer" || t == "runtime.GC" {
 			return "Stm.skip" // no effect on the values computed (finalizers / GC are not modelled)
+		}
+		if exprText(call.Fun) == "sort.Sort" && len(call.Args) == 1 {
+			// sort.Sort(EntriesByIndex(x)) / EntriesByValue: in-place sort of the slice x (any sorted
+			// permutation: the model's insertion sort)
+			conv, ok := call.Args[0].(*ast.CallExpr)
+			if !ok || len(conv.Args) != 1 {
+				panic(unsupported("sort.Sort operand"))
+			}
+			fn := map[string]string{"EntriesByIndex": "goSortEntriesByIndex", "EntriesByValue": "goSortEntriesByValue"}[exprText(conv.Fun)]
+			if fn == "" {
+				panic(unsupported("sort.Sort of " + exprText(conv.Fun)))
+			}
+			e := c.newCtx()
+			cur, t := e.expr0(conv.Args[0], nil)
+			if t.K != "slice" {
+				panic(unsupported("sort.Sort of " + t.K))
+			}
+			e.assignTop(conv.Args[0], "("+fn+" "+cur+")")
+			return c.setStmt(e, d)
 		}
 		e := c.newCtx()
 		e.call(call, nil)
@@ -1110,7 +1375,7 @@ func (c *comp) stmt(s ast.Stmt, depth string) string {
 		if s.Tok == token.DEC {
 			op = "-"
 		}
-		e.assignTo(s.X, fmt.Sprintf("(%s %s 1)", cur, op))
+		e.assignTop(s.X, fmt.Sprintf("(%s %s 1)", cur, op))
 		return c.setStmt(e, d)
 	case *ast.AssignStmt:
 		return c.assign(s, d)
@@ -1245,6 +1510,11 @@ func (c *comp) stmt(s ast.Stmt, depth string) string {
 		loop := fmt.Sprintf("(Stm.loop %d (%s_cond«XA») (%s_body«XA») (%s_post«XA») fuel)", f.id, n, n, n)
 		return seqOf([]string{init, loop}, depth)
 	case *ast.RangeStmt:
+		if id, ok := s.X.(*ast.Ident); ok && c.ghosts[id.Name] && c.lookup(id.Name) == nil {
+			if _, isOpts := optsParams[c.fn.T.Name]; isOpts {
+				return "Stm.skip" // for _, opt := range opts { opt(&o) }: `o` is the parameter
+			}
+		}
 		c.push()
 		defer c.pop()
 		if s.Tok != token.DEFINE {
@@ -1267,7 +1537,16 @@ func (c *comp) stmt(s ast.Stmt, depth string) string {
 			vv = c.declare(s.Value.(*ast.Ident).Name, t.Elem)
 		}
 		live := false
-		if vv != nil && assignsThrough(s.Body, rootIdent(s.X)) {
+		if vv != nil && vv.Ty.K == "slice" && mutatesInPlace(s.Body, vv.Go) {
+			// the body changes the row in place through the range variable (a copy of the slice header that
+			// shares the row's backing array): re-read the row each iteration and write it through
+			live = true
+			if kv == nil {
+				kv = c.declare("rangeIdx", tInt)
+			}
+			c.scopes[len(c.scopes)-1][kv.Lean] = kv
+			c.views = append(c.views, view{key: vv.Go, origin: exprText(s.X) + "[" + kv.Lean + "]", depth: len(c.scopes)})
+		} else if vv != nil && assignsThrough(s.Body, rootIdent(s.X)) {
 			// the body writes through the ranged object: Go reads each element at the start of its
 			// iteration from the live backing array.  Supported when the body only assigns ELEMENTS of
 			// the ranged slice (never the slice itself, whose header Go has already copied).
@@ -1279,7 +1558,7 @@ func (c *comp) stmt(s ast.Stmt, depth string) string {
 				kv = c.declare("rangeIdx", tInt)
 			}
 		}
-		if vv != nil && vv.Ty.K == "slice" {
+		if vv != nil && vv.Ty.K == "slice" && !live {
 			vv.Origin = exprText(s.X) + "[*]" // shares the row's backing array; can never be stored back
 		}
 		var ups []string
@@ -1371,6 +1650,99 @@ func assignsThrough(body *ast.BlockStmt, root string) bool {
 	return found
 }
 
+// mutatesInPlace: the body sorts the slice variable in place or assigns its elements.
+func mutatesInPlace(body *ast.BlockStmt, name string) bool {
+	found := false
+	ast.Inspect(body, func(n ast.Node) bool {
+		switch s := n.(type) {
+		case *ast.CallExpr:
+			if exprText(s.Fun) == "sort.Sort" && len(s.Args) == 1 && rootIdent(innerArg(s.Args[0])) == name {
+				found = true
+			}
+		case *ast.AssignStmt:
+			for _, l := range s.Lhs {
+				if _, isId := l.(*ast.Ident); !isId && rootIdent(l) == name {
+					found = true
+				}
+			}
+		}
+		return true
+	})
+	return found
+}
+
+// innerArg: the operand of a conversion such as EntriesByIndex(row).
+func innerArg(x ast.Expr) ast.Expr {
+	if c, ok := x.(*ast.CallExpr); ok && len(c.Args) == 1 {
+		return c.Args[0]
+	}
+	return x
+}
+
+// viewsOfCall: `x := recv.M(args)` where M returns a struct one of whose slice fields shares its backing array
+// with a path over M's receiver / parameters (e.g. RowVector: Entries ≡ m.Entries[index]).  The path is
+// instantiated with the actual receiver / arguments; non-literal arguments are snapshotted into fresh
+// state fields so that the view keeps pointing at the same element.
+func (c *comp) viewsOfCall(e *ectx, lhs string, call *ast.CallExpr) {
+	sel, ok := call.Fun.(*ast.SelectorExpr)
+	if !ok || c.lookup(rootIdent(sel.X)) == nil {
+		return
+	}
+	_, rt := e.sub().expr0(sel.X, nil)
+	if rt.K == "opt" {
+		rt = rt.Elem
+	}
+	if rt.K != "struct" {
+		return
+	}
+	f, ok := fns[fnKey(rt.Name, sel.Sel.Name)]
+	if !ok || len(f.ResAlias) == 0 {
+		return
+	}
+	subst := map[string]string{f.Recv.Go: exprText(sel.X)}
+	var args []ast.Expr
+	for _, a := range call.Args {
+		if !c.isGhost(a) {
+			args = append(args, a)
+		}
+	}
+	for i, p := range f.Params {
+		at := exprText(args[i])
+		if _, isLit := args[i].(*ast.BasicLit); !isLit && p.Ty.K == "int" {
+			sv := c.declare("viewIdx", tInt)
+			cur, _ := e.expr0(args[i], tInt)
+			e.lines = append(e.lines, fmt.Sprintf("let st := { st with %s := %s }", sv.Lean, cur))
+			// the snapshot is addressed by its Go-level name = its Lean name (unique)
+			c.scopes[len(c.scopes)-1][sv.Lean] = sv
+			at = sv.Lean
+		}
+		subst[p.Go] = at
+	}
+	for _, ra := range f.ResAlias {
+		path := parseExpr(ra[1])
+		c.views = append(c.views, view{key: lhs + "." + ra[0], origin: exprText(substIdents(path, subst)), depth: len(c.scopes)})
+	}
+}
+
+func substIdents(x ast.Expr, m map[string]string) ast.Expr {
+	switch y := x.(type) {
+	case *ast.Ident:
+		if r, ok := m[y.Name]; ok {
+			return parseExpr(r)
+		}
+		return y
+	case *ast.SelectorExpr:
+		return &ast.SelectorExpr{X: substIdents(y.X, m), Sel: y.Sel}
+	case *ast.IndexExpr:
+		return &ast.IndexExpr{X: substIdents(y.X, m), Index: substIdents(y.Index, m)}
+	case *ast.ParenExpr:
+		return substIdents(y.X, m)
+	case *ast.StarExpr:
+		return substIdents(y.X, m)
+	}
+	return x
+}
+
 // onlyElementWrites: every assignment in body whose target is rooted at `root` assigns an element
 // (or a field of an element) of the ranged expression `rng`, never `rng` itself or a prefix of it.
 func onlyElementWrites(body *ast.BlockStmt, root, rng string) bool {
@@ -1408,6 +1780,30 @@ func onlyElementWrites(body *ast.BlockStmt, root, rng string) bool {
 }
 
 func (c *comp) assign(s *ast.AssignStmt, d string) string {
+	allGhost := len(s.Rhs) > 0
+	for _, r := range s.Rhs {
+		if !c.isGhost(r) {
+			allGhost = false
+		}
+	}
+	if allGhost {
+		for _, l := range s.Lhs {
+			if id, ok := l.(*ast.Ident); ok {
+				if c.lookup(id.Name) != nil {
+					panic(unsupported("unmodelled value assigned to a modelled variable"))
+				}
+				c.ghosts[id.Name] = true
+			}
+		}
+		return "Stm.skip"
+	}
+	if rep, ok := optsParams[c.fn.T.Name]; ok && s.Tok == token.DEFINE && len(s.Lhs) == 1 {
+		if id, ok := s.Lhs[0].(*ast.Ident); ok && id.Name == rep[1] {
+			if cl, ok := s.Rhs[0].(*ast.CompositeLit); ok && len(cl.Elts) == 0 {
+				return "Stm.skip" // o := ComputeOpts{}: `o` is the parameter
+			}
+		}
+	}
 	e := c.newCtx()
 	// closure definition: name := func() { … }
 	if s.Tok == token.DEFINE && len(s.Lhs) == 1 && len(s.Rhs) == 1 {
@@ -1443,7 +1839,7 @@ func (c *comp) assign(s *ast.AssignStmt, d string) string {
 		default:
 			panic(unsupported("op-assign on " + t.K))
 		}
-		e.assignTo(s.Lhs[0], v)
+		e.assignTop(s.Lhs[0], v)
 		return c.setStmt(e, d)
 	}
 	// evaluate every right-hand side first (parallel assignment)
@@ -1474,7 +1870,7 @@ func (c *comp) assign(s *ast.AssignStmt, d string) string {
 					c.declare(id.Name, t.Elems[i])
 				}
 			}
-			e.assignTo(l, proj)
+			e.assignTop(l, proj)
 		}
 		return c.setStmt(e, d)
 	}
@@ -1503,6 +1899,11 @@ func (c *comp) assign(s *ast.AssignStmt, d string) string {
 				c.declare(id.Name, tys[i])
 			}
 		}
+		if id, ok := l.(*ast.Ident); ok && len(s.Rhs) == len(s.Lhs) {
+			if call, ok := s.Rhs[i].(*ast.CallExpr); ok {
+				c.viewsOfCall(e, id.Name, call)
+			}
+		}
 		if id, ok := l.(*ast.Ident); ok && tys[i].K == "slice" {
 			// a slice variable copied from an lvalue path shares that path's backing array
 			if v := c.lookup(id.Name); v != nil {
@@ -1529,7 +1930,7 @@ func (c *comp) assign(s *ast.AssignStmt, d string) string {
 				}
 			}
 		}
-		e.assignTo(l, vals[i])
+		e.assignTop(l, vals[i])
 	}
 	return c.setStmt(e, d)
 }
@@ -1604,6 +2005,49 @@ func findFunc(files []*ast.File, recv, name string) *ast.FuncDecl {
 	return nil
 }
 
+// An option constructor `func WithX(n T) ComputeOpt { return func(o *ComputeOpts) { … } }` is translated as
+// the function that applies the option: receiver `o`, parameters of the constructor, body of the closure.
+func optionClosure(fd *ast.FuncDecl) *ast.FuncLit {
+	if fd.Recv != nil || fd.Body == nil || len(fd.Body.List) != 1 {
+		return nil
+	}
+	ret, ok := fd.Body.List[0].(*ast.ReturnStmt)
+	if !ok || len(ret.Results) != 1 {
+		return nil
+	}
+	fl, ok := ret.Results[0].(*ast.FuncLit)
+	if !ok || fl.Type.Params.NumFields() != 1 || fl.Type.Results.NumFields() != 0 {
+		return nil
+	}
+	return fl
+}
+
+// externs: callees of the translated code that are NOT translated but hand-modelled in the Lean text of
+// externs.lean (copied into the generated file): MulVec (goroutines; its sequential specification) and
+// the convergence checker (square root / non-finiteness; the model's squared-delta checker).
+func mkExtern(lean string, recv *Var, params []*Var, res *Ty, mutatesRecv bool) *Fn {
+	f := &Fn{LeanName: lean, Recv: recv, Params: params, Result: res, Mutates: map[string]bool{}}
+	if mutatesRecv {
+		f.Mutates[recv.Lean] = true
+	}
+	return f
+}
+
+func registerExterns() {
+	vec := &Ty{K: "struct", Name: "Vector"}
+	mat := &Ty{K: "struct", Name: "CSMatrix"}
+	cc := &Ty{K: "struct", Name: "ConvergenceChecker"}
+	structs["ConvergenceChecker"] = &Struct{Name: "ConvergenceChecker"} // opaque: fields only in externs.lean
+	fns["Vector.MulVec"] = mkExtern("Vector_MulVec", &Var{Go: "v", Lean: "v", Ty: vec},
+		[]*Var{{Go: "m", Lean: "m", Ty: mat}, {Go: "v1", Lean: "v1", Ty: vec}}, tErr, true)
+	fns["NewConvergenceChecker"] = mkExtern("NewConvergenceChecker", nil,
+		[]*Var{{Go: "t0", Lean: "t0", Ty: vec}, {Go: "e", Lean: "e", Ty: tFloat}}, cc, false)
+	fns["ConvergenceChecker.Update"] = mkExtern("ConvergenceChecker_Update", &Var{Go: "c", Lean: "c", Ty: cc},
+		[]*Var{{Go: "t", Lean: "t", Ty: vec}}, tErr, true)
+	fns["ConvergenceChecker.Converged"] = mkExtern("ConvergenceChecker_Converged", &Var{Go: "c", Lean: "c", Ty: cc}, nil, tBool, false)
+	fns["ConvergenceChecker.Delta"] = mkExtern("ConvergenceChecker_Delta", &Var{Go: "c", Lean: "c", Ty: cc}, nil, tFloat, false)
+}
+
 func translate(f *Fn) {
 	defer func() {
 		if r := recover(); r != nil {
@@ -1614,11 +2058,18 @@ func translate(f *Fn) {
 			panic(r)
 		}
 	}()
-	c := &comp{fn: f, names: map[string]int{}, closures: map[string]*ast.FuncLit{}}
+	c := &comp{fn: f, names: map[string]int{}, closures: map[string]*ast.FuncLit{}, ghosts: map[string]bool{}}
 	c.push()
 	fd := f.Decl
 	if fd.Type.TypeParams != nil {
 		panic(unsupported("generic function"))
+	}
+	body := fd.Body
+	var optLit *ast.FuncLit
+	if optLit = optionClosure(fd); optLit != nil {
+		r := optLit.Type.Params.List[0]
+		f.Recv = c.declare(r.Names[0].Name, typeFromAst(r.Type))
+		body = optLit.Body
 	}
 	if fd.Recv != nil {
 		r := fd.Recv.List[0]
@@ -1628,14 +2079,42 @@ func translate(f *Fn) {
 		}
 		f.Recv = c.declare(name, typeFromAst(r.Type))
 	}
+	nilTested := map[string]bool{}
+	ast.Inspect(fd.Body, func(n ast.Node) bool {
+		if b, ok := n.(*ast.BinaryExpr); ok && (b.Op == token.EQL || b.Op == token.NEQ) {
+			if id, ok := b.Y.(*ast.Ident); ok && id.Name == "nil" {
+				if x, ok := b.X.(*ast.Ident); ok {
+					nilTested[x.Name] = true
+				}
+			}
+		}
+		return true
+	})
 	for _, p := range fd.Type.Params.List {
 		t := typeFromAst(p.Type)
+		if _, isPtr := p.Type.(*ast.StarExpr); isPtr {
+			for _, n := range p.Names {
+				if nilTested[n.Name] {
+					t = fieldTypeFromAst(p.Type) // a pointer parameter the body tests against nil may be nil
+				}
+			}
+		}
 		for _, n := range p.Names {
+			if rep, ok := optsParams[f.T.Name]; ok && n.Name == rep[0] {
+				// the variadic option list is replaced by the options record it is folded into
+				f.Params = append(f.Params, c.declare(rep[1], &Ty{K: "struct", Name: rep[2]}))
+				c.ghosts[rep[0]] = true
+				continue
+			}
+			if t.K == "ghost" || (t.K == "slice" && t.Elem.K == "ghost") {
+				c.ghosts[n.Name] = true
+				continue
+			}
 			f.Params = append(f.Params, c.declare(n.Name, t))
 		}
 	}
 	f.Result = tUnit
-	if fd.Type.Results != nil {
+	if fd.Type.Results != nil && optLit == nil {
 		var rs []*Ty
 		for _, r := range fd.Type.Results.List {
 			t := typeFromAst(r.Type)
@@ -1654,8 +2133,30 @@ func translate(f *Fn) {
 			f.Result = &Ty{K: "tuple", Elems: rs}
 		}
 	}
-	f.Body = c.block(fd.Body.List, "  ")
+	f.Body = c.block(body.List, "  ")
 	f.Aux = c.aux
+	// result aliasing: `return &T{…, F: <path over receiver/params>, …}` with F a slice
+	if len(body.List) == 1 {
+		if ret, ok := body.List[0].(*ast.ReturnStmt); ok && len(ret.Results) == 1 {
+			x := ret.Results[0]
+			if u, ok := x.(*ast.UnaryExpr); ok && u.Op == token.AND {
+				x = u.X
+			}
+			if cl, ok := x.(*ast.CompositeLit); ok && f.Result.K == "struct" {
+				for _, el := range cl.Elts {
+					if kv, ok := el.(*ast.KeyValueExpr); ok {
+						k := kv.Key.(*ast.Ident).Name
+						if ft := structs[f.Result.Name].field(k); ft != nil && ft.K == "slice" {
+							switch kv.Value.(type) {
+							case *ast.IndexExpr, *ast.SelectorExpr:
+								f.ResAlias = append(f.ResAlias, [2]string{k, exprText(kv.Value)})
+							}
+						}
+					}
+				}
+			}
+		}
+	}
 	// alias lint: value semantics is only faithful if every element write through a local slice that
 	// shares a backing array with an lvalue path is stored back to that path
 	for v := range f.Written {
@@ -1746,7 +2247,7 @@ func main() {
 	var w strings.Builder
 	w.WriteString("/-\n  GENERATED by /verif/tools/go2lean from the working tree of /repo — do not edit.\n" +
 		"  Regenerated on every check run; the refinement theorems in Props/Tr*.lean are re-checked against it.\n-/\n" +
-		"import EtVerif.Model.GoSem\n\nnamespace EtVerif.Gen\nopen EtVerif EtVerif.GoSem\n\nset_option linter.unusedVariables false\n\nvariable {α : Type} [Scalar α]\n\n")
+		"import EtVerif.Model.GoSem\nimport EtVerif.Model.Basic\n\nnamespace EtVerif.Gen\nopen EtVerif EtVerif.GoSem\n\nset_option linter.unusedVariables false\n\nvariable {α : Type} [Scalar α]\n\n")
 	// struct declarations, in the listed order (register names first so that types resolve)
 	for _, st := range structTargets {
 		structs[st.Name] = &Struct{Name: st.Name}
@@ -1769,10 +2270,10 @@ func main() {
 							}
 						}
 					}()
-					t = typeFromAst(fl.Type)
+					t = fieldTypeFromAst(fl.Type)
 				}()
-				if t == nil {
-					continue // unsupported field type: dropped (uses become unsupported)
+				if t == nil || t.K == "ghost" || (t.K == "opt" && t.Elem.K == "ghost") {
+					continue // unsupported / unmodelled field type: dropped (uses become unsupported)
 				}
 				for _, n := range fl.Names {
 					s.Fields = append(s.Fields, Field{n.Name, t})
@@ -1787,6 +2288,8 @@ func main() {
 		}
 		fmt.Fprintf(&w, "\ndef G%s.zero : G%s α := { %s }\n\n", st.Name, st.Name, strings.Join(zs, ", "))
 	}
+	registerExterns()
+	w.WriteString(externsLean + "\n")
 	for _, t := range targets {
 		f := &Fn{T: t, Mutates: map[string]bool{}, Written: map[*Var]bool{}, StoredBack: map[*Var]bool{}}
 		f.LeanName = t.Name
@@ -1799,7 +2302,13 @@ func main() {
 		} else {
 			translate(f)
 		}
-		fns[fnKey(t.Recv, t.Name)] = f
+		rk := t.Recv
+		if a, ok := typeAlias[rk]; ok {
+			rk = a // methods of CSRMatrix are found through the embedded CSMatrix the values are rendered as
+		}
+		if _, dup := fns[fnKey(rk, t.Name)]; !dup {
+			fns[fnKey(rk, t.Name)] = f
+		}
 		fnOrder = append(fnOrder, f)
 		emit(f, &w)
 	}
